@@ -1,7 +1,141 @@
-From Coq Require Import NArith.
-From LibaV Require Import C06.StrDefs C06.StrProofs.
+(* C06 -- Dynamic string equals an abstract byte string and stays NUL-terminated.
+   Model: C06/StrDefs.v (tied to src/str.c by checks/C06.py).  Vocabulary: C06/StrSpec.v
+   ([inv], [content], [terminated], [op_ok], [spec_ok], [step_refines], [step_terminates],
+   [steps] = every (state, op, result) triple of a history).  Proofs: C06/StrProofs.v. *)
+From Coq Require Import NArith ZArith List Bool.
+From LibaV Require Import C06.StrDefs C06.StrSpec C06.StrProofs.
+Import ListNotations.
 Local Open Scope N_scope.
 
-Theorem c06_placeholder : num str_init <= mem str_init.
-Proof. exact init_num_le_mem. Qed.
-Print Assumptions c06_placeholder.
+(* Clause "its length never exceeds its capacity" (and: the capacity is the size of the heap
+   block, no operation touches a byte outside its block) -- after every operation of every
+   finite history from A_STR_INIT, under every allocator fault schedule [sc]. *)
+Theorem str_inv :
+  forall (sc : sched) (ops : list op), ops_ok ops (m_init sc) ->
+  Forall (fun x : mstate * op * (mstate * ret * list ev) =>
+            let '(_, _, (m1, r, _)) := x in
+            (num (sA m1) <= mem (sA m1) /\ len (buf (sA m1)) = mem (sA m1)) /\
+            (num (sB m1) <= mem (sB m1) /\ len (buf (sB m1)) = mem (sB m1)) /\
+            r <> RFault)
+         (steps ops (m_init sc)).
+Proof. exact str_inv_all. Qed.
+Print Assumptions str_inv.
+
+(* Clause "content equals the abstract byte string produced by the same operations": every step
+   of every history either reports an allocation failure and leaves both byte strings unchanged,
+   or has the return value and the effect of the abstract operation [spec_ok] (append c / bytes /
+   C string / other or same object / formatter text / UTF-8 code; pop; trim; length change;
+   hand-over; comparison). *)
+Theorem str_refines_bytes :
+  forall (sc : sched) (ops : list op), ops_ok ops (m_init sc) ->
+  Forall (fun x : mstate * op * (mstate * ret * list ev) =>
+            let '(m0, o, (m1, r, e)) := x in
+            r <> RFault /\
+            if any_failed e then abs m1 = abs m0 /\ fail_ret o = Some r
+            else spec_ok o m0 r (abs m1))
+         (steps ops (m_init sc)).
+Proof. exact str_refines_all. Qed.
+Print Assumptions str_refines_bytes.
+
+(* Clause "the terminating variants leave a NUL byte directly after the content inside the
+   capacity": a_str_catc/catn/cats/cat/catf, a_utf_catc always when they succeed;
+   a_str_getc/getn/rtrim/ltrim/trim whenever they shortened the string. *)
+Theorem str_terminated :
+  forall (sc : sched) (ops : list op), ops_ok ops (m_init sc) ->
+  Forall (fun x : mstate * op * (mstate * ret * list ev) =>
+            let '(m0, o, (m1, _, e)) := x in
+            match term_target o with
+            | Some (t, always) =>
+                any_failed e = false ->
+                always = true \/ num (sel t m1) < num (sel t m0) ->
+                num (sel t m1) < mem (sel t m1) /\ get (num (sel t m1)) (buf (sel t m1)) = Some 0
+            | None => True
+            end)
+         (steps ops (m_init sc)).
+Proof. exact str_terminated_all. Qed.
+Print Assumptions str_terminated.
+
+(* One step, from any state satisfying the invariant (not only reachable ones). *)
+Theorem str_step :
+  forall o m m' r e, minv m -> op_ok o m -> step o m = (m', r, e) ->
+  minv m' /\ step_refines o m m' r e /\ step_terminates o m m' e.
+Proof. exact step_good. Qed.
+Print Assumptions str_step.
+
+(* Clause "formatted append appends exactly what the C formatter produces and returns that
+   length" ([out] = the formatter's output, [vsn] = the assumed vsnprintf contract), whether the
+   text fits the spare room (one pass) or not (measure, grow, format again). *)
+Theorem catf_appends_formatter_output :
+  forall t out m m' r e,
+  minv m -> fits (sel t m) (len out + 1) -> len out < 2147483647 ->
+  step (OCatf t out) m = (m', r, e) -> any_failed e = false ->
+  r = RInt (Z.of_N (len out)) /\
+  content (sel t m') = content (sel t m) ++ out /\
+  content (oth t m') = content (oth t m) /\
+  terminated (sel t m').
+Proof. exact catf_exact. Qed.
+Print Assumptions catf_appends_formatter_output.
+
+(* Clause "the comparison functions order strings like bytewise lexicographic comparison with
+   length as tie-break" (sign of a_str_cmp / a_str_cmpn / a_str_cmps; NULL/empty operands
+   included: [inv] allows ptr = None). *)
+Theorem cmp_sign :
+  forall l r d, inv l -> inv r ->
+  cmp l r = Some (lex_cmp (content l) (content r)) /\
+  cmpn l d = Some (lex_cmp (content l) d) /\
+  cmps l d = Some (lex_cmp (content l) (cstr d)).
+Proof. exact cmp_sign_all. Qed.
+Print Assumptions cmp_sign.
+
+(* ... where lex_cmp is the lexicographic order on byte lists: 0 exactly on equal strings,
+   antisymmetric, a proper prefix is smaller, otherwise the first differing byte decides. *)
+Theorem lex_cmp_lexicographic :
+  (forall a b, lex_cmp a b = 0%Z <-> a = b) /\
+  (forall a b, lex_cmp b a = (- lex_cmp a b)%Z) /\
+  (forall a x t, lex_cmp a (a ++ x :: t) = (-1)%Z) /\
+  (forall p x y a b, x < y -> lex_cmp (p ++ x :: a) (p ++ y :: b) = (-1)%Z).
+Proof. exact lex_cmp_is_lexicographic. Qed.
+Print Assumptions lex_cmp_lexicographic.
+
+(* Trim: what [spec_ok] calls lstrip / rstrip removes the maximal prefix / suffix over the set
+   (the all-trimmed case is lstrip f l = [] / rstrip f l = []). *)
+Theorem trim_spec :
+  forall f l,
+  (exists pre, l = pre ++ lstrip f l /\ forallb f pre = true /\
+               match lstrip f l with [] => True | x :: _ => f x = false end) /\
+  (exists suf, l = rstrip f l ++ suf /\ forallb f suf = true /\
+               match rev (rstrip f l) with [] => True | x :: _ => f x = false end).
+Proof. exact strip_maximal. Qed.
+Print Assumptions trim_spec.
+
+(* Ownership hand-over (a_str_exit with proposed_fixes/C06-1.diff): the caller receives the
+   content followed by a NUL inside the block, the object is reset; if no room for the NUL can be
+   allocated NULL is returned and the object keeps its content. *)
+Theorem exit_handover :
+  forall s sc b0, inv s -> fits s 1 -> ptr s = Some b0 ->
+  exists r s' sc' e, exit s sc = Some (r, s', sc', e) /\
+    (any_failed e = false ->
+       s' = str_init /\
+       exists blk, r = Some blk /\ take (num s + 1) blk = content s ++ [0] /\ num s < len blk) /\
+    (any_failed e = true -> r = None /\ inv s' /\ content s' = content s).
+Proof. exact StrProofs.exit_handover. Qed.
+Print Assumptions exit_handover.
+
+(* The code as found (before the proposed fixes) does not have the property: *)
+(* a_str_exit stores the NUL at ptr_[num_] one past the block when num_ = mem_ *)
+Theorem exit_as_found_refuted : exists s, inv s /\ exit_orig s = None.
+Proof. exact exit_orig_refuted. Qed.
+Print Assumptions exit_as_found_refuted.
+
+(* a_str_cat(ctx, ctx) reads the block that its own reservation has just moved *)
+Theorem cat_self_as_found_refuted : exists s, inv s /\ terminated s /\ cat_self_orig_uaf s [] = true.
+Proof. exact cat_self_orig_refuted. Qed.
+Print Assumptions cat_self_as_found_refuted.
+
+(* The size precondition in [op_ok] is necessary: a_size_up wraps for requests above 2^64-8,
+   a_str_setm then frees the block, reports success and leaves num_ > mem_. *)
+Theorem inv_without_size_bound_refuted :
+  exists m o, minv m /\ ~ op_ok o m /\
+              let '(m', r, _) := step o m in r = RInt A_SUCCESS /\ ~ minv m'.
+Proof. exact setm_wrap_refuted. Qed.
+Print Assumptions inv_without_size_bound_refuted.
